@@ -59,6 +59,9 @@ structure Case where
   /-- the runs before the operation proper used another argument shape (other SQL): the
       statement cached by them is not the one the operation needs -/
   otherShape : Bool := false
+  /-- the context given to Begin is cancelled after the operation; database/sql has rolled
+      the transaction back before the finishers are called -/
+  beginCancel : Bool := false
 deriving Repr, Inhabited
 
 def Case.onTx (c : Case) : Bool := c.path.startsWith "tx"
@@ -212,7 +215,12 @@ def predict (c : Case) : Pred :=
           | none => w
         ({ returns := outs }, w)
   let late := c.onTx && c.txEnd == "after" && c.concurrent == 0
-  let (_, w3, fin2) := if late then runFinishers c.finishers tx1 w2 else (tx1, w2, [])
+  let (_, w3, fin2) :=
+    if late && c.beginCancel then
+      -- the automatic rollback is the transaction's one finisher event; every Commit /
+      -- Rollback of the caller finds the transaction over
+      (tx1, { (w2.emit .rollback) with inUse := w2.inUse - 1 }, c.finishers.map fun _ => "txDone")
+    else if late then runFinishers c.finishers tx1 w2 else (tx1, w2, [])
   { p with log := w3.log, inUse := w3.inUse, finish := fin1 ++ fin2 }
 
 /-- what the harness observed -/
@@ -334,6 +342,14 @@ def holdsC14 (c : Case) (o : Obs) : Bool :=
        else if call == "get" && r.startsWith "row:" then r == s!"row:{k}" && chk rest k
        else chk rest k
    chk pairs 0) &&
+  -- after the end (a Next that returned false, or Close) every form of Get is an error
+  (let rec ended : List (String × String) → Bool → Bool
+     | [], _ => true
+     | (call, r) :: rest, over =>
+       if call == "next" then ended rest (over || r == "false")
+       else if call == "close" then ended rest true
+       else (!over || (r != "" && !r.startsWith "row:" && !r.startsWith "outcome:")) && ended rest over
+   ended pairs false) &&
   -- a row made current by a successful Next stays available to Get until the next
   -- Next or Close, whatever failed Gets happen in between (no cancellation in play)
   (c.cancelAt.isSome || c.fewCols ||
@@ -420,6 +436,7 @@ def holdsC12 (c : Case) (o : Obs) : Bool :=
   -- nothing after the finisher
   ((o.events.dropWhile (fun e => !isFinisher e)).length == 1) &&
   (if c.concurrent > 0 then o.winners == 1
+   else if c.beginCancel then o.finish.all (· == "txDone")   -- rolled back by database/sql: nothing the caller calls succeeds
    else (o.finish.filter (· != "txDone")).length == 1 && o.finish.head? != some "txDone") &&
   -- once the transaction has ended, every call the model answers with ErrTXDone is answered
   -- with ErrTXDone (a Query created before the end included); with a context that is done
